@@ -229,7 +229,7 @@ def _run_pass(emu, bus, R, lo, hi, nsteps, out) -> None:
         out.append({"pc": pc, "bytes": bs, "info": info, "fc": fc, "fz": fz, "s": s_before, "f": f_before, "imr": imr_before,
                     "next": emu.regs.get(R.PC) & 0xFFFFF, "s_after": s_after, "f_after": emu.regs.get(R.F),
                     "imr_after": bus.imem[0xFB], "writes": sorted(bus.writes), "err": err,
-                    "stack": [bus.rd(s_after + i) for i in range(5)]})
+                    "stack": [bus.rd((s_after + i) & 0xFFFFF) for i in range(5)]})
         if err or info is None:
             break
 
@@ -334,11 +334,16 @@ def check(scn: Dict[str, Any], hist: Dict[str, Any]) -> List[Dict[str, Any]]:
                 frames.append({"op": op, "ret": (pc + ln) & 0xFFFFF, "s": st["s"], "f": st["f"], "imr": st["imr"], "k": k,
                                "lo": (st["s"] - size) & 0xFFFFF, "hi": st["s"] & 0xFFFFF, "size": size, "dirty": False,
                                "page": pc & 0xF0000})
+                if frames[-1]["lo"] > frames[-1]["hi"] or st["s"] > 0xFFFFF:
+                    # a frame that straddles the end of the 20-bit space is not judged (what lies "beyond 0xFFFFF"
+                    # is a property of the bus, not of the call/return pairing)
+                    frames[-1]["dirty"] = True
                 if op == 0xFE:
                     probe("ir")
                     pushed = st["stack"]
                     got = pushed[2] | (pushed[3] << 8) | (pushed[4] << 16)
-                    if st["s_after"] == ((st["s"] - 5) & 0xFFFFF) and (got & 0xFFFFF) != ((pc + ln) & 0xFFFFF):
+                    if st["s_after"] == ((st["s"] - 5) & 0xFFFFF) and not frames[-1]["dirty"] and \
+                            (got & 0xFFFFF) != ((pc + ln) & 0xFFFFF):
                         V("call_return", k, f"IR at {pc:#x} pushed return address {got:#x}, expected {(pc + ln) & 0xFFFFF:#x}",
                           field="ir_return_address")
             elif op in (0x06, 0x07, 0x01) and frames:
